@@ -106,6 +106,7 @@ PROPS["C04"] = {
     "lean_module": "RaftVerif.Props.C04",
     "theorems": [
         T("RP.log_matching", "cluster model: equal (index, term) in two logs => equal logs through that index, every execution", "partial"),
+        T("SV.ae_stale_term_inert", "the stepped model's AppendEntries with an older term: no write, no state change, answer false with the server's term"),
     ],
     "engines": [handlers("C04"), universe("C04")],
     "assumptions": [SV_NOTE],
@@ -115,6 +116,8 @@ PROPS["C06"] = {
     "lean_module": "RaftVerif.Props.C06",
     "theorems": [
         T("MP.vote_once_per_term", "all grants of a term name one candidate: every request sequence, every failure plan, every crash point between the three stable writes"),
+        T("SV.vote_grant_sound", "the stepped model's RequestVote, every failure and crash ordinal: a granted answer implies term >= own, candidate at least as up to date as the last entry, sender a voter of the known configuration, no other known leader (unless transfer), all planned writes performed and the durable vote record = (this term, this candidate)"),
+        T("SV.votePlan_steps_refuse", "a failed vote write always answers not granted"),
         T("SV.exec_prefix", "whatever write fails or wherever the process dies, the durable effect of a handler is a prefix of its write plan"),
         T("SV.prevote_inert", "RequestPreVote writes nothing and changes no state"),
     ],
@@ -139,6 +142,7 @@ PROPS["C11"] = {
         T("CP.compactRange_maximal", "and deletes everything those bounds allow"),
         T("CP.removeOldLogs_all", "removeOldLogs removes the whole store"),
         T("RP.snapshot_coverage", "cluster model: every index up to the last index is under the snapshot or in the stored window; the snapshot's (index, term) lies on the full log", "partial"),
+        T("SV.install_covered_inert", "the stepped model's InstallSnapshot for a snapshot the server is already past (applied index, or it holds the snapshot's last entry): acknowledged with no durable write and no FSM call"),
     ],
     "engines": [{"engine": "compaction", "bin": "h1", "quick": ["-n", "20000"], "thorough": ["-n", "400000"]}, universe("C11")],
     "assumptions": [SV_NOTE],
